@@ -1,10 +1,15 @@
 /-
-C01 — accepted Wuffs programs never go out of bounds / overflow (scalar fragment),
-and the FACTS clause of C02 (every fact the checker holds is true at run time).
+C01 — accepted Wuffs programs never go out of bounds / overflow, and the FACTS clause
+of C02 for assignments (every fact the checker holds is true at run time).
 
 Model: `Model/WCore/{Expr,Prove,Bounds,Stmt}.lean` (mirror of lang/check/bounds.go and
-assert.go for the scalar fragment, REPAIRED rules, see fixes/C01-*.patch);
-interval arithmetic: the C06 model and its soundness theorems (used, not restated).
+assert.go for scalars and fixed arrays, REPAIRED rules, see fixes/C01-*.patch);
+interval arithmetic: the C06 model and its soundness theorems (used, not restated);
+control flow: `Model/Flow.lean` + `Proof/Flow*.lean` (C02's layer over WCore: if / else,
+while with pre / inv / post, break / continue, return, asserts with `via` reasons, impure
+calls, `x = this.m!()`, yield and coroutine calls), whose central induction
+(`Proof.Flow.reach_sound`) the control-flow soundness theorems below are corollaries of
+(`Proof/WCoreFlowSafe.lean`); methods and objects: `Model/WCore/FlowMethod.lean`.
 -/
 import WuffsVerif.Proof.WCoreBounds
 import WuffsVerif.Proof.WCoreStmt
@@ -12,6 +17,7 @@ import WuffsVerif.Proof.WCoreNoRec
 import WuffsVerif.Proof.WCoreHist
 import WuffsVerif.Gen.C01_Tables
 import WuffsVerif.Model.WCore.IOTable
+import WuffsVerif.Proof.WCoreFlowSafe
 
 namespace WuffsVerif.Props.C01
 open WuffsVerif.Interval WuffsVerif.WCore WuffsVerif.Proof.WCoreBounds WuffsVerif.Proof.WCoreStmt
@@ -227,20 +233,21 @@ theorem facts_hold_store {Γ : Ctx} {env : Env} {fs fs' : List Expr} {s : Stmt}
   store_sound S hw h
 
 /--
-**check_sound_F1_partial**: for straight-line blocks of assignments and
+**check_sound_F1_block**: for straight-line blocks of assignments and
 op-assignments to scalar variables with pure right-hand sides of the fragment.  If
 the checker accepts the block from a situation that holds, then along the whole
 execution every statement is safe and, before each statement and at the end, every
 fact of the checker's situation there is true.
-Missing for the full `check_sound`: see the OPEN note below.
+A special case of `check_sound_flow` (`straightline_is_flow`), kept because it speaks
+about the deterministic `runBlock`.
 -/
-theorem check_sound_F1_partial {Γ : Ctx} {env : Env} {fs fs' : List Expr} {ss : List Stmt}
+theorem check_sound_F1_block {Γ : Ctx} {env : Env} {fs fs' : List Expr} {ss : List Stmt}
     (S : Situation Γ env fs) (hw : ∀ s ∈ ss, wtStmt Γ s) (h : checkBlock fs ss = some fs') :
     HoldsAlong Γ fs env ss :=
   block_sound ss fs fs' env S hw h
 
 /-- the same for blocks that also store to array elements -/
-theorem check_sound_F1_arr_partial {Γ : Ctx} {env : Env} {fs fs' : List Expr} {ss : List Stmt}
+theorem check_sound_F1_block_arr {Γ : Ctx} {env : Env} {fs fs' : List Expr} {ss : List Stmt}
     (S : Situation Γ env fs) (hw : ∀ s ∈ ss, wtStmtA Γ s) (h : checkBlock fs ss = some fs') :
     HoldsAlong Γ fs env ss :=
   block_sound_arr ss fs fs' env S hw h
@@ -283,7 +290,7 @@ example :
 /-! ## Histories of public calls, any argument values -/
 
 /--
-**check_sound_F1_hist_partial** (the quantifier of C01: "for every input and every history
+**check_sound_F1_hist** (the quantifier of C01: "for every input and every history
 of calls").  Take an object whose store respects the declared types (e.g. freshly
 zero-initialised) and ANY history of public calls of accepted methods with ANY argument
 values of the parameters' C types.  Then before every call the store still respects the
@@ -293,10 +300,11 @@ nothing; every call that runs executes every statement of its body without tripp
 monitor — no overflow, no bad shift or division, every index within its array, every
 stored value within the refined type of its destination — and with every fact of the
 checker true where it holds it (`HoldsAlong`).
-`_partial`: method bodies are straight-line blocks of (op-)assignments to variables and
-array elements (`MethodOk`); no if / while / calls.
+Method bodies are straight-line blocks of (op-)assignments to variables and array
+elements (`MethodOk`); bodies with control flow and calls: `check_sound_flow_hist` below,
+of which this is the deterministic special case.
 -/
-theorem check_sound_F1_hist_partial {Γ : Ctx} (hist : List (Method × List Int)) (o : Obj)
+theorem check_sound_F1_hist {Γ : Ctx} (hist : List (Method × List Int)) (o : Obj)
     (he : EnvOk Γ o.env)
     (hall : ∀ c ∈ hist, MethodOk Γ c.1 ∧ argsNat c.1.params c.2) : HistSafe Γ o hist :=
   hist_sound hist o he hall
@@ -304,7 +312,7 @@ theorem check_sound_F1_hist_partial {Γ : Ctx} (hist : List (Method × List Int)
 /-- … in particular from the freshly initialised (all-zero) object, when zero is a value
 of every declared type (which `checkFields` and `bcheckVar` enforce: "default zero value
 is not within bounds") -/
-theorem check_sound_F1_fresh_partial {Γ : Ctx} (hz : ∀ n, inType (Γ n) 0)
+theorem check_sound_F1_fresh {Γ : Ctx} (hz : ∀ n, inType (Γ n) 0)
     (hist : List (Method × List Int))
     (hall : ∀ c ∈ hist, MethodOk Γ c.1 ∧ argsNat c.1.params c.2) :
     HistSafe Γ ⟨fun _ => 0, false⟩ hist :=
@@ -341,7 +349,7 @@ theorem demoMethod_ok : MethodOk demoΓ demoMethod where
 
 example (vs : List Int) (hv : ∀ v ∈ vs, 0 ≤ v ∧ v ≤ 4294967295) :
     HistSafe demoΓ ⟨fun _ => 0, false⟩ (vs.map fun v => (demoMethod, [v])) := by
-  apply check_sound_F1_hist_partial
+  apply check_sound_F1_hist
   · intro key
     simp only [demoΓ]
     split
@@ -424,6 +432,212 @@ theorem mod_shift_left_witness :
       = some (mkIR 0 255) := by
   decide
 
+/-! ## Control flow: the soundness theorem over the Flow fragment
+
+Fragment (`WFlow.FStmt`, Model/Flow.lean): blocks, assignment and op-assignment to
+variables and array elements, `assert` (plain and `via` a listed axiom), if / else-if /
+else, `while` with pre / inv / post, `break` / `continue` of any enclosing loop, `return`,
+impure calls with scalar arguments (as statements or assigned to a variable), `yield?` and
+coroutine calls — nested without bound.  Semantics: `Proof.Flow.Exec` (big-step; an impure
+callee may store anything of the declared types into `this.*`; across a suspension the
+caller may change `args.*` and `this.*`).  "Reached point": `Proof.Flow.Reach` — any
+prefix of any execution, terminating or not, inside any nesting of branches and after any
+number of loop iterations.  The monitors of a point: `Proof.FlowSafe.PointSafe`. -/
+
+open WuffsVerif.WFlow WuffsVerif.Proof.Flow WuffsVerif.Proof.FlowSafe
+
+/--
+**check_sound_flow_wt** (general form).  Let `s` be a statement of the Flow fragment, typed
+as lang/check/type.go leaves it (`wtS`, `ArgsWt`), that the checker accepts under the
+situation `fs` inside the loops `L`; let `fs` hold in `env`.  Then at EVERY point
+`(s', env')` that an execution from `env` can reach, the statement `s'` about to run trips
+no monitor (`PointSafe`), and every fact of the checker's situation there is true.
+-/
+theorem check_sound_flow_wt {Γ : Ctx} {L L' : List LoopSpec} {fs fs' : List Expr}
+    {env env' : Env} {s s' : FStmt} (hw : wtS Γ s) (ha : ArgsWt Γ s) (hl : WfLoops Γ L)
+    (hc : (checkS L fs s).isSome = true) (S : Situation Γ env fs)
+    (hr : Reach Γ L fs env s L' fs' env' s') :
+    PointSafe Γ L' fs' env' s' ∧ FactsHold env' fs' ∧ EnvOk Γ env' :=
+  let r := point_safe hw ha hl hc S hr
+  ⟨r.1, r.2.holds, r.2.envOk⟩
+
+/--
+**check_sound_flow** (C01 for one function of the Flow fragment; hypotheses COMPUTABLE).
+For every function — parameters `m.params`, body `m.body` — that passes `wfMethod` (one
+declared type per name, boolean-shaped conditions, numeric op-assignment targets, `via`
+reasons in the listing: what the type checker guarantees; the driver evaluates it on
+every body of the correspondence) and whose body the checker accepts (`checkS [] []`,
+the model of `bcheckBlock` on a function body): from EVERY store that respects the
+declared types — any argument values within the argument types, any receiver state
+within the field types, any locals —, at EVERY reached point, whatever impure callees
+stored into `this.*` and whatever the caller changed across each suspension:
+no safety monitor fails.  Spelled out by `PointSafe`: every array index (read or store) is
+in `[0, len)`; every non-modular operator, negation and conversion stays within its type;
+every shift amount is below the width and every divisor non-zero; every value stored
+fits the refined type of its destination; every argument passed fits its parameter type;
+every returned value fits the result type; every `assert`, every loop pre / inv on
+arrival and every inv / post (pre / inv) at a `break` (`continue`) is true; and every node
+of every evaluated expression has a value inside the bounds the checker derived for it.
+-/
+theorem check_sound_flow {m : FMethod} {L' : List LoopSpec} {fs' : List Expr} {env env' : Env}
+    {s' : FStmt} (hwf : wfMethod m = true) (hc : (checkS [] [] m.body).isSome = true)
+    (he : EnvOk (ctxOf (methodTypings m)) env)
+    (hr : Reach (ctxOf (methodTypings m)) [] [] env m.body L' fs' env' s') :
+    PointSafe (ctxOf (methodTypings m)) L' fs' env' s' ∧ FactsHold env' fs' ∧
+      EnvOk (ctxOf (methodTypings m)) env' :=
+  let ok := methodOk_of_wfMethod hwf hc
+  check_sound_flow_wt ok.wtBody ok.argsWt (fun _ h => by cases h) hc (situation_nil he) hr
+
+/--
+**loop_condition_safe_flow**: every evaluation of a loop condition is safe — on arrival
+(`PointSafe` of the `while`) and after each completed iteration (`Heads`: the body fell
+through or ended in `continue`) —, and the loop's pre + inv are true each time.
+-/
+theorem loop_condition_safe_flow {Γ : Ctx} {L L' : List LoopSpec} {fs fs' : List Expr}
+    {env env' envk : Env} {s body : FStmt} {sp : LoopSpec} {c : Expr} (hw : wtS Γ s)
+    (hl : WfLoops Γ L) (hc : (checkS L fs s).isSome = true) (S : Situation Γ env fs)
+    (hr : Reach Γ L fs env s L' fs' env' (.while sp c body)) (hh : Heads Γ c body env' envk) :
+    CondsHold envk (nonPost sp) ∧ ExprSafe (assumeAll (nonPost sp)) envk c ∧ EnvOk Γ envk :=
+  heads_safe hw hl hc S hr hh
+
+/-- readable corollary: a reached store `a[i] = e` / `a[i] op= e` writes inside the array -/
+theorem store_in_range_flow {Γ : Ctx} {L' : List LoopSpec} {fs' : List Expr} {env' : Env}
+    {st : Stmt} {a : String} {len : Nat} {ety : Ty} {i : Expr}
+    (h : PointSafe Γ L' fs' env' (.base st)) (ht : stmtTarget st = .index a len ety i) :
+    0 ≤ evalI env' i ∧ evalI env' i < len := by
+  have hs : safe env' false (stmtTarget st) := h.2.1.1
+  rw [ht] at hs
+  exact hs.2
+
+/-- readable corollary: a reached `return e` returns a value of the declared result type -/
+theorem return_in_range_flow {Γ : Ctx} {L' : List LoopSpec} {fs' : List Expr} {env' : Env}
+    {e : Expr} {ty : Ty} (h : PointSafe Γ L' fs' env' (.ret (some (e, ty)))) :
+    safe env' false e ∧ inType ty (evalI env' e) :=
+  ⟨h.1.1, h.2⟩
+
+/--
+**check_sound_flow_hist** (the quantifier of C01 over the Flow fragment: "for every
+input and every history of calls").  Take an object whose fields hold values of their
+declared types (`FieldsOk`; e.g. freshly zero-initialised) and ANY history of public calls
+of accepted methods with ANY argument values of the parameters' C types.  The history
+semantics is `HistRun`: a call whose refined arguments fail the emitted run-time check
+(`writeFuncImplArgChecks`) runs nothing and disables the object; a call that runs starts
+from the fields the previous calls left, the arguments as passed, and locals of their
+declared types; inside, impure callees and resuming callers do anything within the
+declared types.  Then at EVERY program point reached during the history
+(`HistReach`: after any number of completed calls, inside a call that may or may not
+terminate) no safety monitor fails (`PointSafe`, as in `check_sound_flow`), every fact of
+the checker is true, and the store respects the declared types; and after every
+completed prefix the fields still hold values of their declared types
+(`check_sound_flow_hist_fields`).
+Each method has its own typing context `Γ m`, agreeing with `ΓF` on the fields
+(`FMethodOk`); `check_sound_flow_obj` discharges `FMethodOk` by the computable `wfObj`.
+-/
+theorem check_sound_flow_hist {ΓF : Ctx} {Γ : FMethod → Ctx} {o : Obj}
+    {hist : List (FMethod × List Int)} {m : FMethod} {L' : List LoopSpec} {fs' : List Expr}
+    {env' : Env} {s' : FStmt} (hf : FieldsOk ΓF o.env)
+    (hall : ∀ c ∈ hist, FMethodOk ΓF (Γ c.1) c.1 ∧ argsNat c.1.params c.2)
+    (hr : HistReach Γ o hist m L' fs' env' s') :
+    PointSafe (Γ m) L' fs' env' s' ∧ FactsHold env' fs' ∧ EnvOk (Γ m) env' :=
+  let r := hist_point_safe hf hall hr
+  ⟨r.1, r.2.holds, r.2.envOk⟩
+
+/-- the fields keep their declared (refined) types across every history -/
+theorem check_sound_flow_hist_fields {ΓF : Ctx} {Γ : FMethod → Ctx} {o o' : Obj}
+    {hist : List (FMethod × List Int)} (hf : FieldsOk ΓF o.env)
+    (hall : ∀ c ∈ hist, FMethodOk ΓF (Γ c.1) c.1 ∧ argsNat c.1.params c.2)
+    (hr : HistRun Γ o hist o') : FieldsOk ΓF o'.env :=
+  hist_fields hr hf hall
+
+/--
+**check_sound_flow_obj**: `check_sound_flow_hist` with computable hypotheses.  For an
+object whose methods `ms` pass `wfObj` (every body of the shape the type checker
+guarantees; one declared type per name over the whole object) and are all accepted by the
+checker (`acceptsObj`): every history of calls of methods of `ms` with argument values
+of the C types, from any receiver state within the field types, is safe at every
+reached point.
+-/
+theorem check_sound_flow_obj {ms : List FMethod} {o : Obj} {hist : List (FMethod × List Int)}
+    {m : FMethod} {L' : List LoopSpec} {fs' : List Expr} {env' : Env} {s' : FStmt}
+    (hwf : wfObj ms = true) (hacc : acceptsObj ms = true)
+    (hf : FieldsOk (ctxOf (objTypings ms)) o.env)
+    (hall : ∀ c ∈ hist, c.1 ∈ ms ∧ argsNat c.1.params c.2)
+    (hr : HistReach (fun _ => ctxOf (objTypings ms)) o hist m L' fs' env' s') :
+    PointSafe (ctxOf (objTypings ms)) L' fs' env' s' ∧ FactsHold env' fs' ∧
+      EnvOk (ctxOf (objTypings ms)) env' :=
+  check_sound_flow_hist (ΓF := ctxOf (objTypings ms)) (Γ := fun _ => ctxOf (objTypings ms)) hf
+    (fun c hc => ⟨methodOk_of_wfObj hwf hacc (hall c hc).1, (hall c hc).2⟩) hr
+
+/--
+**straightline_is_flow**: the straight-line theorems above are the special case of the
+Flow theorems for bodies `blockStmt ss`: the checker's verdict and final situation are
+those of `checkBlock`, the (only) execution is `runBlock`, and every statement of the
+block is a `Reach` point in the store and with the situation of `HoldsAlong`.
+-/
+theorem straightline_is_flow {Γ : Ctx} (L : List LoopSpec) (fs : List Expr) (env : Env) (ss : List Stmt) :
+    checkS L fs (blockStmt ss) = checkBlock fs ss ∧
+    Exec Γ env (blockStmt ss) (.norm (runBlock env ss)) ∧
+    ∀ pre s post fs1, ss = pre ++ s :: post → checkBlock fs pre = some fs1 →
+      Reach Γ L fs env (blockStmt ss) L fs1 (runBlock env pre) (.base s) :=
+  ⟨checkS_block L ss fs, exec_block ss env,
+    fun pre s post fs1 h hc => by subst h; exact reach_block pre fs env fs1 s post hc⟩
+
+/-! non-vacuity: a method with a counting loop that stores to an array, an element store
+indexed by a refined argument, and a `return`:
+
+    pub func t.fill!(a: base.u32[..= 6]) base.u32[..= 7] {
+        x = 0
+        while x < 5, inv x <= 5 { this.arr[x] = 1   x += 1 }
+        this.arr[args.a] = 2
+        return x
+    }                       with  x : base.u32[..= 7],  this.arr : array[8] base.u8      -/
+
+def fX : Expr := .var "x" ⟨.u32, none, some 7⟩
+def fA : Expr := .var "args.a" ⟨.u32, none, some 6⟩
+def fArr (i : Expr) : Expr := .index "this.arr" 8 ⟨.u8, none, none⟩ i
+
+def demoFill : FMethod :=
+  { params := [("args.a", ⟨.u32, none, some 6⟩)],
+    body :=
+      .seq (.base (.assign fX (.const 0)))
+      (.seq (.while [(.inv, .binary .le fX (.const 5))] (.binary .lt fX (.const 5))
+              (.seq (.base (.assign (fArr fX) (.const 1)))
+              (.seq (.base (.opAssign .plus fX (.const 1))) .skip)))
+      (.seq (.base (.assign (fArr fA) (.const 2)))
+      (.seq (.ret (some (fX, ⟨.u32, none, some 7⟩))) .skip))) }
+
+/-- the method is well-formed and accepted; so are the object `[demoFill]` … -/
+theorem demoFill_ok : wfObj [demoFill] = true ∧ acceptsObj [demoFill] = true ∧
+    wfMethod demoFill = true := by decide
+
+/-- … the checker leaves the loop with exactly the invariant, and rejects the same body
+when the array has only 4 elements (the store `this.arr[x]` with `x < 5` would overflow it) -/
+example :
+    checkS [] [] (.seq (.base (.assign fX (.const 0)))
+      (.seq (.while [(.inv, .binary .le fX (.const 5))] (.binary .lt fX (.const 5))
+              (.seq (.base (.opAssign .plus fX (.const 1))) .skip)) .skip))
+      = some [.binary .le fX (.const 5)] ∧
+    checkS [] [] (.seq (.base (.assign fX (.const 0)))
+      (.seq (.while [(.inv, .binary .le fX (.const 5))] (.binary .lt fX (.const 5))
+              (.seq (.base (.assign (.index "this.arr" 4 ⟨.u8, none, none⟩ fX) (.const 1)))
+              (.seq (.base (.opAssign .plus fX (.const 1))) .skip))) .skip)) = none := by
+  decide
+
+/-- so `check_sound_flow_obj` applies to every history of calls `fill(v)`, `v` any 32-bit
+value, from every receiver state: every reached point is safe -/
+example (o : Obj) (vs : List Int) (hv : ∀ v ∈ vs, 0 ≤ v ∧ v ≤ 4294967295)
+    (hf : FieldsOk (ctxOf (objTypings [demoFill])) o.env)
+    {m : FMethod} {L' : List LoopSpec} {fs' : List Expr} {env' : Env} {s' : FStmt}
+    (hr : HistReach (fun _ => ctxOf (objTypings [demoFill])) o (vs.map fun v => (demoFill, [v]))
+      m L' fs' env' s') :
+    PointSafe (ctxOf (objTypings [demoFill])) L' fs' env' s' := by
+  refine (check_sound_flow_obj demoFill_ok.1 demoFill_ok.2.1 hf ?_ hr).1
+  intro c hc
+  simp only [List.mem_map] at hc
+  obtain ⟨v, hv', rfl⟩ := hc
+  exact ⟨List.mem_singleton.2 rfl,
+    by simpa [argsNat, demoFill, inNatural, Base.range, Base.numBounds] using hv v hv'⟩
+
 /-! ## No recursion (`checkNoRecursiveFuncs`) -/
 
 open WuffsVerif.WCore.NoRec WuffsVerif.Proof.WCoreNoRec in
@@ -459,25 +673,44 @@ example : accepts [[1, 2], [3], [3], []] = true ∧ accepts [[1], [2], [0]] = fa
 --       ¬ (runHist p hist fuel).isUnsafe
 --
 -- over all accepted packages, all call histories, all argument values, all buffer
--- contents.  Proved here: the expression level for ALL scalar expressions
--- (`bounds_contain`) and the statement level for straight-line scalar blocks
--- (`facts_hold_F1`, `check_sound_F1_partial`).  Missing in the model (and so in the
--- theorem): if/else with `unify` (set intersection of branch facts), while with
--- pre/inv/post, break/continue/return, asserts (the control-flow layer over this
--- model is built by C02: Props/C02Facts), the `via` reason procedures (C02), method
--- calls (argument checks of `bcheckExprCall`, the impure-call kill set), slices, I/O,
--- coroutines.  In the model and proved here: all scalar expressions, array-element
--- reads and stores with their index obligations (`index_in_range`, `store_in_range`),
--- the prover `proveBinaryOp` (`prove_sound`), straight-line blocks
--- (`check_sound_F1_partial`, `check_sound_F1_arr_partial`), `no_recursion`.  For the
--- rest the property is covered by the search only (harness/cmd/c01: monitored
--- interpreter over the real typed AST + sanitizers).
+-- contents.
 --
--- Known, unrepaired unsoundness of the real checker outside this fragment
--- (KNOWN_FINDINGS.txt): stale pure-call facts (`y == this.get()` survives a store to
--- the field read by get()).  Index aliasing between elements of ONE array or slice
--- is repaired (fixes/C01-index-alias-store.patch); aliasing between two different
--- slice values that share memory is outside the fragment and not addressed.
+-- PROVED above, as instances of that statement for the modelled part of the language:
+--   * `check_sound_flow` / `check_sound_flow_wt` — one function of the Flow fragment, every
+--     reached point, every store within the declared types, arbitrary callee / caller
+--     behaviour;  `loop_condition_safe_flow` — every evaluation of a loop condition;
+--   * `check_sound_flow_hist` / `check_sound_flow_obj` / `check_sound_flow_hist_fields` —
+--     every history of public calls of such functions with every argument value;
+--   * `no_recursion` — the call graph;
+--   * underneath: `bounds_contain(_nodes)`, `index_in_range`, `prove_sound`,
+--     `facts_hold_F1`, `facts_hold_store`, and C02's `statement_preserves` / `reach_sound`.
+-- The Flow fragment: integer scalars (refined) and bool as locals / arguments / fields,
+-- fixed arrays of scalars, all unary / binary / associative operators, `as`, assignment
+-- and op-assignment to variables and array elements, `assert` (plain and `via` any listed
+-- axiom), if / else-if / else, `while` with pre / inv / post, `break` / `continue` of any
+-- enclosing loop, `return`, impure calls with scalar arguments, `x = this.m!(…)`, `yield?`,
+-- coroutine calls; methods with refined parameters; objects with several methods.
+--
+-- STILL MISSING in the model (and so in the theorem), covered by the search only
+-- (harness/cmd/c01: monitored interpreter over the real typed AST + sanitizers on the
+-- generated C; I/O pre-condition probes; negative corpus):
+--   * slices: `s[i]`, `s[i .. j]`, `.length()`, the `i <= j <= len` obligations, slice-typed
+--     locals across suspensions, aliasing between slice values that share memory;
+--   * I/O: `io_reader` / `io_writer` / `token_writer` methods, their `length() >= n`
+--     pre-conditions (`ioMethodAdvances`: only the TABLE is covered, `io_advance_table`),
+--     `optimizeIOMethodAdvance`, `io_bind` / `io_limit`;
+--   * `via` reasons beyond the modelled generic reason procedure: the hand-written
+--     special reasons (`"a < b: a < c; c <= b"` chains over slice lengths,
+--     `proveReasonRequirementForRHSLength` on slices);
+--   * `iterate` loops, `choose`, `=?` assignments, status values;
+--   * pointers: `nptr` types, the `<> nullptr` facts of `proveRecvNotEqNullptr`;
+--   * calls INSIDE expressions (pure methods `this.get()`, their facts), by-reference
+--     (slice / table) arguments of impure calls;
+--   * the numeric built-ins `min` / `max` / `low_bits` / `high_bits` (interpreter + C only),
+--     SIMD built-ins, `copy_from_history_fast` and friends;
+--   * struct cycles (`checkStructCycles`), package-level consts beyond typed constants.
+-- The tie between `wtS` and lang/check/type.go is by differential execution (`case flow`
+-- ops: `wfMethod` is evaluated on every sampled body), not proved.
 -/
 
 end WuffsVerif.Props.C01
